@@ -13,7 +13,7 @@ EXPLANATION = ("Static analysis over the instantiated AST of every reader / scan
                "a callee that has already returned or by the constructor's frame. Not decided: adequacy of each arithmetic bound, "
                "termination time, behaviour inside libpng/libjpeg/libtiff.")
 W = "include/boost/gil/"
-PATTERNS = ['^boost::gil::(read_image|read_view|read_and_convert_image|read_and_convert_view)$', '^boost::gil::reader_backend::', '^boost::gil::reader::', '^boost::gil::scanline_reader::',
+PATTERNS = ['^boost::gil::detail::is_allowed$', '^boost::gil::(read_image|read_view|read_and_convert_image|read_and_convert_view)$', '^boost::gil::reader_backend::', '^boost::gil::reader::', '^boost::gil::scanline_reader::',
             '^boost::gil::detail::(file_stream_device|istream_device)::', '^boost::gil::reader_base::',
             '^boost::gil::writer_backend::', '^boost::gil::writer::',
             '^boost::gil::detail::(png|jpeg)_[A-Za-z0-9_]+::', '^boost::gil::detail::row_buffer_helper']
@@ -94,6 +94,8 @@ def run(rep):
     fixed_buffers(rep, fns)
     jmp_typestate(rep, fns)
     run_bounds(rep, fns)
+    palette_indices(rep, fns)
+    mask_shifts(rep, fns)
     from .p06 import accept_inconclusive
     accept_inconclusive(rep, "c11_inconclusive.json")
 
@@ -426,3 +428,214 @@ def run_bounds(rep, fns):
             rep.violation("R5-run-bounds", key, "%s:%s" % (file, line), {"problem": why + ": a crafted run length writes past the end of the decode buffer"})
     rep.floor("obligations:R5", 6)
     rep.floor("rule:R5-run-bounds", 6)
+
+
+# ------------------------------------------------------------------ R2: value analysis of palette indices (A-exec)
+def palette_indices(rep, fns):
+    """R2a: abstract execution (harness/ast/absexec.py) of the bmp readers under every palette configuration
+    (bits per pixel x compression): every `_palette[i]` has  max(i) < min(size of _palette)."""
+    from . import p12
+    from .ast.absexec import Exec, Stop, type_range
+    from .ir.poly import Poly
+    rep.rule("R2a bmp: under each header configuration (1/4/8 bits per pixel, rgb/rle4/rle8) the reader is executed abstractly with the "
+             "number of colours and all pixel data as ranged symbols; at every _palette[i] the upper bound of i is below the lower bound "
+             "of the palette's size (established by resize)")
+
+    class Scan(p12.IoExec):
+        def __init__(self, fns_):
+            p12.IoExec.__init__(self, fns_, {"W": (1, p12.BIG), "H": (1, p12.BIG)}, "scan")
+            self.fstack = []
+            self.nin = 0
+            self.memfns = []
+
+        def invoke(self, f, args, site=None):
+            self.fstack.append(f)
+            try:
+                return p12.IoExec.invoke(self, f, args, site)
+            finally:
+                self.fstack.pop()
+
+        def src_bits(self):
+            for f in reversed(self.fstack):
+                m = re.search(r"::(read_palette_image|read_bit_row)<(.*)$", f["full"])
+                if m:
+                    t = m.group(2)
+                    b = re.search(r"bit_aligned_pixel_reference<unsigned char, boost::mp11::mp_list<std::integral_constant<unsigned int, (\d+)>>", t)
+                    if b:
+                        return int(b.group(1))
+                    if "pixel<unsigned char" in t:
+                        return 8
+            return None
+
+        def stmt(self, s):
+            s1 = R.strip(s) if s is not None else None
+            if s1 is not None and s1.get("k") == "Decl":
+                for d in s1.get("decls", []):
+                    init = R.strip(d.get("init")) if d.get("init") is not None else None
+                    if init is not None and init.get("k") == "Call" and d.get("id"):
+                        cal = init.get("callee") or {}
+                        m = re.search(r"packed_(dynamic_)?channel_reference<[^,]+, (\d+)(, (\d+))?, (true|false)>", cal.get("cls", "")) if "::operator " in cal.get("name", "") else None
+                        if m:
+                            nb = int(m.group(4) if (m.group(4) and not m.group(1)) else m.group(2))
+                            self.env["L:%s" % d["id"]] = self.fresh(0, 2 ** nb - 1, "px%d_" % nb)
+                            return None
+            return p12.IoExec.stmt(self, s)
+
+        def on_call(self, n):
+            cal = n.get("callee") or {}
+            name = cal.get("name", "")
+            m = re.search(r"_device::read_uint(8|16|32)$", name)
+            if m:
+                return self.fresh(0, 2 ** int(m.group(1)) - 1, "in")
+            if name == "std::mem_fn":
+                for x, _ in R.find(n.get("args", []), lambda x: x.get("k") == "DeclRef" and x.get("dk") == "CXXMethod"):
+                    self.memfns.append(x.get("id"))
+                return None
+            if name.endswith("std::vector::resize") and n.get("obj") is not None:
+                vk = self.var_key(n["obj"])
+                self.vsize[vk] = self.ev(n["args"][0])
+                self.ev_event("resize", vec=vk, size=self.vsize[vk], size_bounds=self.bounds(self.vsize[vk]), line=n.get("line"))
+                return None
+            if n.get("op") == "[]" and name.endswith("std::vector::operator[]") and n.get("args"):
+                vk = self.var_key(n["args"][0])
+                if vk is not None and vk.endswith("_palette"):
+                    i = self.ev(n["args"][1])
+                    self.ev_event("index", vec=vk, idx=R.key(n["args"][1]), idx_bounds=self.bounds(i), size_bounds=self.bounds(self.vsize.get(vk)), line=n.get("line"),
+                                  loopvar=bool(i is not None and any(a.startswith("y") and a[1:].isdigit() for mon in i.t for a in mon)))
+                return None
+            return p12.IoExec.on_call(self, n)
+
+    readers = [f for f in fns if f["name"].endswith("reader::apply") and fmt_of(f) == "bmp" and "file_stream_device" in f["full"] and "read_and_convert<" in f["full"]]
+    if not readers:
+        rep.fail_analysis("R2a: no bmp reader<...,read_and_convert>::apply instantiation")
+        return
+    seen = {}
+    CASES = [(1, 0, "1bpp"), (4, 0, "4bpp"), (4, 2, "4bpp rle4"), (8, 0, "8bpp"), (8, 1, "8bpp rle8")]
+    for bpp, comp, cname in CASES:
+        ex = Scan(fns)
+        ex.ranges["NC"] = (0, 2 ** 31 - 1)
+        env = {"_bits_per_pixel": Poly.const(bpp), "_compression": Poly.const(comp), "_header_size": Poly.const(40), "_valid": Poly.const(1),
+               "_width": Poly.atom("W"), "_height": Poly.atom("H"), "_num_colors": Poly.atom("NC"), "_offset": Poly.const(54), "_top_down": Poly.const(0)}
+        for k, v in env.items():
+            ex.env["M:_info." + k] = v
+        ex.env["M:_settings._top_left.x"] = Poly.const(0)
+        ex.env["M:_settings._top_left.y"] = Poly.const(0)
+        ex.env["M:_settings._dim.x"] = Poly.atom("W")
+        ex.env["M:_settings._dim.y"] = Poly.atom("H")
+        try:
+            ex.invoke(readers[0], [])
+        except Stop as st:
+            rep.fail_analysis("R2a %s: the abstract run of reader::apply stops with %s at line %s" % (cname, st.why, st.line))
+            continue
+        idx = [e for e in ex.events if e["kind"] == "index" and not e["loopvar"]]
+        rsz = [e for e in ex.events if e["kind"] == "resize"]
+        if not idx or not rsz:
+            rep.fail_analysis("R2a %s: no palette access reached (resize %d, index %d)" % (cname, len(rsz), len(idx)))
+            continue
+        for e in idx:
+            key = "R2a:bmp:%s:%s:_palette[%s]" % (cname, (e["fn"] or "").split("::")[-1], e["idx"])
+            ib, sb = e["idx_bounds"], e["size_bounds"]
+            ok = ib[1] is not None and sb[0] is not None and ib[0] is not None and ib[0] >= 0 and ib[1] < sb[0]
+            if key not in seen or (seen[key][0] and not ok):
+                seen[key] = (ok, ib, sb, e["line"])
+    inits = [f for f in fns if f["name"].endswith("scanline_reader::initialize") and fmt_of(f) == "bmp" and "file_stream_device" in f["full"]]
+    if not inits:
+        rep.fail_analysis("R2a: no bmp scanline_reader::initialize instantiation")
+    for bpp, comp, cname in [c for c in CASES if c[1] == 0] if inits else []:
+        ex = Scan(fns)
+        ex.ranges["NC"] = (0, 2 ** 31 - 1)
+        env = {"_bits_per_pixel": Poly.const(bpp), "_compression": Poly.const(comp), "_header_size": Poly.const(40), "_valid": Poly.const(1),
+               "_width": Poly.atom("W"), "_height": Poly.atom("H"), "_num_colors": Poly.atom("NC"), "_offset": Poly.const(54), "_top_down": Poly.const(0)}
+        for k, v in env.items():
+            ex.env["M:_info." + k] = v
+        try:
+            ex.invoke(inits[0], [])
+            for fid in list(ex.memfns):
+                g = ex.by_id.get(fid)
+                if g is not None:
+                    ex.invoke(g, [])
+        except Stop as st:
+            rep.fail_analysis("R2a scanline %s: the abstract run stops with %s at line %s" % (cname, st.why, st.line))
+            continue
+        idx = [e for e in ex.events if e["kind"] == "index" and not e["loopvar"]]
+        if not idx:
+            rep.fail_analysis("R2a scanline %s: no palette access reached (row functions %d)" % (cname, len(ex.memfns)))
+            continue
+        for e in idx:
+            key = "R2a:bmp:scanline %s:%s:_palette[%s]" % (cname, (e["fn"] or "").split("::")[-1], e["idx"])
+            ib, sb = e["idx_bounds"], e["size_bounds"]
+            ok = ib[1] is not None and sb[0] is not None and ib[0] is not None and ib[0] >= 0 and ib[1] < sb[0]
+            if key not in seen or (seen[key][0] and not ok):
+                seen[key] = (ok, ib, sb, e["line"])
+    for key, (ok, ib, sb, line) in sorted(seen.items()):
+        rep.count("obligations:R2a")
+        if ok:
+            rep.ok("R2a-palette-index", key, "index in [%s,%s] < size >= %s" % (ib[0], ib[1], sb[0]))
+        elif ib[1] is None or sb[0] is None:
+            rep.fail_analysis("%s: bounds not established (index %s, size %s)" % (key, ib, sb))
+        else:
+            rep.violation("R2a-palette-index", key, W + "extension/io/bmp/detail/%s:%s" % ("scanline_read.hpp" if "scanline" in key else "read.hpp", line),
+                          {"index_range": [ib[0], ib[1]], "palette_size_at_least": sb[0],
+                           "problem": "the index comes from the pixel data, the palette size from the header's number of colours: a file declaring fewer colours than its pixels use reads behind the palette"})
+    rep.floor("obligations:R2a", 11)
+
+
+def mask_shifts(rep, fns):
+    rep.rule("R2b bmp: wherever the channel widths are computed from file-supplied masks (count_ones), the same block goes on to reject widths outside "
+             "1..8 for all three channels before anything else uses them; the only run-time shift amounts in the row decoders are `_mask.c.shift` and `8 - _mask.c.width`")
+    seen = {}
+    shifts = {}
+    for f in fns:
+        if fmt_of(f) != "bmp" or f.get("body") is None or not re.search(r"::(reader|scanline_reader)::[^:]+$", f["name"]):
+            continue
+        fname = "%s::%s" % (f["name"].split("::")[-2], f["name"].split("::")[-1])
+        for blk, _ in R.find(f["body"], lambda x: x.get("k") == "Compound"):
+            items = [R.strip(x) for x in blk.get("c", [])]
+            widx = [i for i, x in enumerate(items) if x.get("k") == "Assign" and re.fullmatch(r"_mask\.(red|green|blue)\.width", R.key(x["l"])) and "count_ones" in R.key(x["r"])]
+            if not widx:
+                continue
+            need = {(c, b) for c in ("red", "green", "blue") for b in ("low", "high")}
+            got = set()
+            for x in items[max(widx) + 1:]:
+                conds = []
+                if x.get("k") == "Call" and x["callee"]["name"].endswith("io_error_if") and x.get("args"):
+                    conds = R.atoms(x["args"][0], False)       # what holds afterwards
+                elif x.get("k") == "If" and x.get("else") is None and R.is_exit(x.get("then")):
+                    conds = R.atoms(x["cond"], False)
+                for op, l, r in conds:
+                    m = re.fullmatch(r"_mask\.(red|green|blue)\.width", l)
+                    if m and R.is_lit(r):
+                        if (op == "<=" and int(r) <= 8) or (op == "<" and int(r) <= 9):
+                            got.add((m.group(1), "high"))
+                        if (op == "!=" and int(r) == 0) or (op == ">" and int(r) >= 0) or (op == ">=" and int(r) >= 1):
+                            got.add((m.group(1), "low"))
+                    m = re.fullmatch(r"_mask\.(red|green|blue)\.width", r)
+                    if m and R.is_lit(l):
+                        if (op == ">=" and int(l) <= 8) or (op == ">" and int(l) <= 9):
+                            got.add((m.group(1), "high"))
+                        if (op == "!=" and int(l) == 0) or (op == "<" and int(l) >= 0) or (op == "<=" and int(l) >= 1):
+                            got.add((m.group(1), "low"))
+            key = "R2b:bmp:%s:mask widths validated" % fname
+            seen[key] = (need <= got, sorted(need - got), rel(f), items[widx[0]].get("line"))
+        for x, _ in R.find(f["body"], lambda x: x.get("k") == "Binary" and x.get("op") in ("<<", ">>")):
+            amt = R.strip(x["r"])
+            if "const" in amt and R.is_lit(str(amt["const"])):
+                continue
+            k = R.key(amt)
+            if "_mask" in R.key(x) or "_mask" in k:
+                ok = bool(re.fullmatch(r"_mask\.(red|green|blue)\.shift|\(8 - _mask\.(red|green|blue)\.width\)", k))
+                shifts["R2b:bmp:%s:shift by %s" % (fname, k)] = (ok, rel(f), x.get("line"))
+    for key, (ok, missing, file, line) in sorted(seen.items()):
+        rep.count("obligations:R2b")
+        if ok:
+            rep.ok("R2b-mask-shift", key, "1 <= width <= 8 for red, green, blue")
+        else:
+            rep.violation("R2b-mask-shift", key, "%s:%s" % (file, line), {"missing_bounds": ["%s.width %s" % (c, "<= 8" if b == "high" else ">= 1") for c, b in missing],
+                                                                             "problem": "widths are count_ones(mask) of masks read from the file: the rows are decoded with `<< (8 - width)` and `>> trailing_zeros(mask)`, a negative or >= 32 shift for a mask wider than 8 bits or an empty mask"})
+    for key, (ok, file, line) in sorted(shifts.items()):
+        rep.count("obligations:R2b")
+        if ok:
+            rep.ok("R2b-mask-shift", key, "validated amount")
+        else:
+            rep.violation("R2b-mask-shift", key, "%s:%s" % (file, line), {"problem": "a shift by a file-derived amount that the mask validation does not cover"})
+    rep.floor("obligations:R2b", 8)
